@@ -1,0 +1,1 @@
+//! Verification facade: `txn` (feature `verif`).
